@@ -54,16 +54,17 @@ partial def readVals : Nat → List String → Option (List Val × List String)
     | none => none
 end
 
+/-- node table: (object id, uuid, attached to the IR whose `get_by_uuid` is used) -/
 structure St where
-  nodes : List (Nat × Bytes) := []
+  nodes : List (Nat × Bytes × Bool) := []
 
 def St.nodeUuid (s : St) (id : Nat) : Bytes :=
   match s.nodes.find? (·.1 == id) with
-  | some (_, u) => u
+  | some (_, u, _) => u
   | none => []
 
 def St.lookup (s : St) (u : Bytes) : Option Nat :=
-  (s.nodes.find? (·.2 == u)).map (·.1)
+  (s.nodes.find? (fun e => e.2.2 && e.2.1 == u)).map (·.1)
 
 def showRes {α} (f : α → String) : Res α → String
   | .ok a => "ok " ++ f a
@@ -81,9 +82,9 @@ def f32widen (bits32 : Nat) : Nat :=
 def driverStep (s : St) (line : String) : St × String :=
   match fields line with
   | ["reset"] => ({}, "ok")
-  | ["node", id, u] =>
+  | ["node", id, u, att] =>
     match id.toNat?, bytesOfHex u with
-    | some i, some b => ({ s with nodes := (i, b) :: s.nodes }, "ok")
+    | some i, some b => ({ s with nodes := (i, b, att == "1") :: s.nodes }, "ok")
     | _, _ => (s, "bad-op")
   | "type" :: [t] =>
     match stringOfHex t with
